@@ -289,6 +289,9 @@ func (w *World) Scan(faults []Fault) *Line {
 	}
 	if !w.NoGauges {
 		line.Gauges = w.readGauges()
+		if MemUnit == int64(1)<<40 {
+			line.MemShift = 20
+		}
 	} else {
 		line.Gauges = map[string]Gauges{}
 		for _, g := range w.Gorder {
